@@ -60,6 +60,13 @@ add("C20", "codec", "exploration", "runtime monitor: differential check of forma
     "Random (number, format, locale) triples concentrated on exact ties, one-ulp neighbours, 2^53, tiny and huge magnitudes; the reference works on decimal digits only.",
     CODEC_NOTE)
 
+FORMULA_NOTE = ("Trusted base: the harness's formula language FL (fgen.rs) and its printer, the engine's public Node type for structural "
+                "comparison, and (where stated) a reference evaluator written from the spreadsheet rules. Verdicts come from executing the real "
+                "parser, printer and evaluator built from /repo's working tree.")
+add("C09", "formula", "exploration", "runtime monitor: round-trip relation parse -> print (display / stored / xlsx form) -> parse observed on the real parser and printer, bounded-exhaustive over operator nestings",
+    "All (outer, inner, side) operator classes with varied leaves in all 30 language/locale pairs plus random deeper trees; structural equality of the trees.",
+    FORMULA_NOTE)
+
 NOT_YET = {}
 
 def main():
